@@ -147,7 +147,7 @@ Example C15_dir_archive_agree_ex :
   fits 1000 100 (map (fun f => tar_entry ("k4" ++ "/" ++ f_name f) (f_data f)) (kept ignK walkK)) /\
   kept ignK walkK <> [] /\
   exists c, load_dir_walk mergeK lock_decK parseK untarK sanK semverK restK 1000 100 ignK 1 walkK = inr c /\
-            c_templates c = [mkFile "templates/a.yaml" "a: 1"] /\ c_files c = [mkFile ".helmignore" "README.md"].
+            c_templates c = [mkFile "templates/a.yaml" "a: 1"] /\ c_files c = [mkFile ".helmignore" "README.md"; mkFile "notes.txt" (utf8bom ++ "x")].
 Proof. exact agree_example. Qed.
 Print Assumptions C15_dir_archive_agree_ex.
 
@@ -162,6 +162,23 @@ Theorem C15_invalid_not_packaged :
   save md_enc lock_enc json_valid sanitize is_semver rest_valid c = None.
 Proof. exact invalid_not_saved. Qed.
 Print Assumptions C15_invalid_not_packaged.
+
+(* ... at every depth: if a dependency (or a dependency of a dependency, ...) has a name that is
+   not its own base name — "../evil", "sub/dir" — nothing is packaged: writeTarContents checks
+   the name of every chart it writes, not only the root's *)
+Theorem C15_invalid_dependency_not_packaged :
+  forall (md_enc : meta -> string) (lock_enc : lockv -> string) (json_valid : string -> bool)
+         (sanitize : meta -> meta) (is_semver : string -> bool) (rest_valid : meta -> bool) (c d : chart),
+  In d (c_deps c) -> bad_name_in d ->
+  save md_enc lock_enc json_valid sanitize is_semver rest_valid c = None.
+Proof. exact bad_dependency_not_saved. Qed.
+Print Assumptions C15_invalid_dependency_not_packaged.
+
+Example C15_invalid_dependency_not_packaged_ex :
+  bad_name_in (Chart (metaT "mid") None [] None None [] [] [leafT "../../up" [mkFile "f" "f"]]) /\
+  save encT lock_encK jsonK sanK semverK restT badT = None.
+Proof. exact badT_not_saved. Qed.
+Print Assumptions C15_invalid_dependency_not_packaged_ex.
 
 (* action.Package.Run with an optional --version override *)
 Theorem C15_invalid_not_packaged_action :
